@@ -40,6 +40,67 @@ def check(ck):
     r14_4(ck)
     r14_5(ck)
     r14_6(ck)
+    r14_7(ck)
+
+
+def r14_7(ck):
+    ck.rule('R14.7', 'serializers keep no memo of results: serialize / '
+            'deserialize / can_deserialize do not store a value they also '
+            'return into an attribute of the serializer or a container it '
+            'holds - every call builds its own value, so a value that a '
+            'caller changes in place cannot come back from a later '
+            'deserialization')
+    mod = ck.repo.module('core.serialize')
+    n = 0
+    MUT = {'append', 'extend', 'insert', 'update', 'setdefault', 'pop',
+           'add', 'clear', 'remove', 'discard', 'popitem'}
+    for c in mod.classes.values():
+        if c.is_test or 'Serializer' not in [
+                b.name for b in ck.repo.mro(c.name)]:
+            continue
+        for mname in ('serialize', 'deserialize', 'can_deserialize'):
+            m = c.methods.get(mname)
+            if m is None:
+                continue
+            ck.functions.add(m.fq)
+            n += 1
+            bad = []
+            returned = set()
+            for x in A.walk_no_nested(m.node):
+                if isinstance(x, ast.Return) and x.value is not None:
+                    returned |= A.names_in(x.value)
+            for x in A.walk_no_nested(m.node):
+                if isinstance(x, (ast.Assign, ast.AugAssign, ast.AnnAssign)):
+                    # only results that are also handed out matter (a memo
+                    # of compiled patterns or of flags is harmless)
+                    if x.value is None or not (
+                            A.names_in(x.value) & returned):
+                        continue
+                    for t in A.assigned_targets(x):
+                        root = t
+                        while isinstance(root, (ast.Subscript,
+                                                ast.Attribute)):
+                            if isinstance(root, ast.Attribute) and \
+                                    A.is_name(root.value, 'self'):
+                                bad.append(x)
+                                break
+                            root = root.value
+                elif isinstance(x, ast.Call) and A.call_name(x) in MUT:
+                    r = A.call_receiver(x)
+                    if isinstance(r, ast.Attribute) and A.is_name(
+                            r.value, 'self') and any(
+                            A.names_in(a) & returned for a in x.args):
+                        bad.append(x)
+            ck.require(not bad, 'R14.7', m, bad[0] if bad else m.node.name,
+                       '%s.%s keeps no state between calls' % (c.name, mname),
+                       '%s.%s writes into the serializer (%s): results are '
+                       'remembered across calls, so a mutable value handed '
+                       'out once is handed out again - after the caller '
+                       'changed it in place, later round trips return the '
+                       'changed value' % (c.name, mname, A.short(
+                           bad[0], 50) if bad else ''),
+                       bad[0] if bad else None)
+    ck.floor('R14.7', n, 8, 'serializer methods')
 
 
 def fstring_affixes(node):
